@@ -271,6 +271,8 @@ def run(ctx):
     tlc.cleanup(res)
     if not cases:
         raise MachineryError("no cases emitted by ModelGeom (C12)")
+    # TLC's workers emit in arbitrary order: replay in a fixed order
+    cases.sort(key=lambda c: (c["mk"], c["dg"]["kind"], c["dg"]["k"], c["dg"]["proj"], c["rg"]["kind"], c["rg"]["k"], c["rg"]["proj"], c["fi"]))
     for c in cases:
         check_case(ctx, c)
     ctx.observe("refusal_table", {"refused": sum(1 for c in cases if c["refused"]), "value": sum(1 for c in cases if not c["refused"]),
